@@ -526,6 +526,10 @@ def _check_init(col, crate, rid, P, SZ):
         return [y for y in t[2] if not (isinstance(y, tuple) and y and y[0] == "mem")]
 
     def item_tree(t):
+        if isinstance(t, tuple) and t and t[0] == "ref":
+            # `for x in &mut self.F`: the array itself as the iterable
+            fs = sorted(set(x[2] for x in subterms(t) if x[0] == "field" and x[1] == selfp_r and x[2] in want))
+            return ("cell", fs[0]) if len(fs) == 1 else None
         if not (isinstance(t, tuple) and t and t[0] == "call"):
             return None
         nm = str(t[1]).rsplit("::", 1)[-1]
